@@ -49,6 +49,9 @@ def full_load(case, r):
             if cond:
                 r.label(lab)
         r.nontrivial(case["ncpu"] > 1 and m.n_ghost_octs > 0 and levels_with_leaves >= 2)
+        if len(set(m.nxyz[: case["ndim"]])) > 1:
+            r.label("coarse_grid_anisotropic")          # e.g. nx,ny,nz = 3,3,1 or 1,1,3: walls in some dimensions only
+            r.label("nxyz_" + "".join(str(v) for v in m.nxyz))
         if "mesh" not in ds.keys():
             r.bad(["mesh-group-missing"], f"groups {list(ds.keys())}")
             return
@@ -109,4 +112,4 @@ def subs(ctx):
             Sub("full_load", full_load, strategy=rc.output_cases(with_part=False, with_sink=False),
                 quick=150, thorough=700,
                 required={"multi_cpu": 0.5, "ghosts": 0.3, "boundaries": 0.2, "ndim_1": 0.08, "ndim_2": 0.15,
-                          "ndim_3": 0.15, "multi_level": 0.4})]
+                          "ndim_3": 0.15, "multi_level": 0.4, "coarse_grid_anisotropic": 0.06})]
